@@ -76,6 +76,36 @@ Analyse(ev) ==
 Ev(e) == l <= Len(Trace) /\ Trace[l].op = e /\ l' = l + 1
 SetLimits == /\ Ev("SetLimits") /\ exactLimit' = Trace[l].e /\ tiesLimit' = Trace[l].t /\ base' = NoBase
 
+\* ---- the normal approximation (sizes above the limits) ----
+\* In units of 2U:  less  num = 2U + 1 - n1 n2,  greater  num = 2U - 1 - n1 n2,  two-sided  num = -max(|2U - n1 n2| - 1, 0);
+\* z = num / (2 sigma) with 4 sigma^2 = n1 n2 ((N+1) N (N-1) - sum(t^3 - t)) / (3 N (N-1)): z^2 is an exact rational.
+\* The logged z must have that square and the sign of num; Phi (uninterpreted here) is evaluated by the harness at the
+\* logged z; P = Phi(z), 1 - Phi(z), 2 Phi(z) by the alternative.  Where the library's own path is the lower tail (less;
+\* two-sided with U below its mean) the small tails are required to 2^-29 RELATIVE, elsewhere to 2^-40 absolute
+\* (1 - Phi cannot carry a relative accuracy).
+RECURSIVE TieSumB(_,_)
+TieSumB(T, k) == IF k = 0 THEN <<>> ELSE Add(FromNat(T[k] * T[k] * T[k] - T[k]), TieSumB(T, k - 1))
+IAbs(x) == IF x < 0 THEN 0 - x ELSE x
+ApproxOK(ev, a) ==
+  LET n1 == a.n1  n2 == a.n2  N == n1 + n2
+      d == a.twoU - n1 * n2
+      num == IF ev.alt = -1 THEN d + 1 ELSE IF ev.alt = 1 THEN d - 1 ELSE (IF IAbs(d) - 1 > 0 THEN 0 - (IAbs(d) - 1) ELSE 0)
+      cube == Mul(Mul(FromNat(N + 1), FromNat(N)), FromNat(N - 1))
+      fourS == [n |-> SNat(Mul(FromNat(n1 * n2), Sub(cube, TieSumB(a.T, Len(a.T))))), d |-> Mul(<<3>>, Mul(FromNat(N), FromNat(N - 1)))]
+      z2 == [n |-> SNat(Mul(FromNat(IAbs(num) * IAbs(num)), fourS.d)), d |-> fourS.n.m]
+      Dy2(x) == [s |-> IF x.s = 0 THEN 0 ELSE 1, m |-> Mul(x.m, x.m), e |-> 2 * x.e]
+      one == [n |-> SNat(<<1>>), d |-> <<1>>]
+      zero == [n |-> SZero, d |-> <<1>>]
+      P == DyRat(ev.pd.d)  phi == DyRat(ev.phi.d)
+      want == IF ev.alt = -1 THEN phi ELSE IF ev.alt = 1 THEN RSub(one, phi) ELSE RMul([n |-> SNat(<<2>>), d |-> <<1>>], phi)
+      lowerPath == ev.alt = -1 \/ (ev.alt = 0 /\ d < 0)
+  IN /\ ev.pd.c = "fin" /\ ev.z.c = "fin" /\ ev.phi.c = "fin"
+     /\ ev.z.d.s = (IF num > 0 THEN 1 ELSE IF num < 0 THEN -1 ELSE 0)
+     /\ RClose(DyRat(Dy2(ev.z.d)), z2, zero, 40)
+     /\ IF lowerPath /\ RLe([n |-> SNat(<<1>>), d |-> Pow2(900)], phi)             \* Phi(z) >= 2^-900: a normal float
+        THEN RClose(P, want, zero, 29)
+        ELSE RNear(P, want, one, 40)
+
 \* the reply of one call, judged on its own
 ReplyOK(ev, a) ==
   /\ ev.err = a.err
@@ -84,6 +114,7 @@ ReplyOK(ev, a) ==
        /\ \/ PInRange(ev)
           \/ /\ ~PInRange(ev) /\ ev.alt = 0 /\ a.exact /\ a.ties /\ ev.p.s > 0   \* known finding: two-sided exact P above 1
              /\ PrintT("KNOWN-SIG stats/utest.go:LocationDiffers/exact")
+       /\ ~a.exact => ApproxOK(ev, a)
        /\ (a.exact /\ Feasible(a.n1, a.n2)) =>
             LET c == CntDP(a.T, a.n1)  den == Ch(a.n1 + a.n2, Min2(a.n1, a.n2))
                 le == Prefix(c, a.twoU + 1)  ge == den - Prefix(c, a.twoU)
